@@ -49,9 +49,10 @@ def run(ctx):
             raise AnalysisError("R16.sinks: usage schema lacks %s.%s" % (tbl, cols))
     nsinks = 0
     seen_tables = set()
-    for en in model.runtime_entries():
-        for p in model.paths(en):
-            for e, loops in all_events(p, ("sql",)):
+    from ..events import each_event
+    if True:
+        if True:
+            for p, e, loops in each_event(model, model.runtime_entries(), ("sql",)):
                 if e["db"] != "usage" or e["stmt"].kind not in ("insert", "update"):
                     continue
                 tbl = e["stmt"].table
@@ -94,9 +95,9 @@ def run(ctx):
                tbl in seen_tables, "", "" if tbl in seen_tables else
                "no INSERT into usage `%s` reached: the sink enumeration is incomplete" % tbl)
     # any other usage column fed by a raw client time?  (a new record path)
-    for en in model.runtime_entries():
-        for p in model.paths(en):
-            for e, loops in all_events(p, ("sql",)):
+    if True:
+        if True:
+            for p, e, loops in each_event(model, model.runtime_entries(), ("sql",)):
                 if e["db"] != "usage" or e["stmt"].kind != "insert":
                     continue
                 tbl = e["stmt"].table
